@@ -16,7 +16,10 @@ P = {
          "Quick: rebuild cone + S-gen/S-ver correspondence (vm_compute in Coq) + structural-membership oracle on ~2400 pairs; thorough: all 467^2 pairs.",
          TB_PROOF, "machine-checked proof in Coq over a model regenerated from source + correspondence", "5"),
  "C05": ("proof", "C05_closed/unique/empty/any/post_init over the regenerated model: results canonical; generated == (dataclass eq, Any/Empty __eq__, reflected "
-         "dispatch) holds iff same members; is_empty/is_any exact. Same tie and oracle as C01 plus canonical-shape checks.", TB_PROOF,
+         "dispatch) holds iff the two values have the same members, is_empty / is_any are exact - where MEMBERS ARE POSITIONS (cuts) of the version order, i.e. the order read as if it were dense. Read over versions (C05_versions) one direction of each "
+         "statement remains: equal results admit the same versions, an empty intersection has no common version, a universal union admits every version; the converses need density, and the public PEP 440 order is not dense: C05_gap_refuted "
+         "proves that no version lies between 1.0 and 1.0.post0.dev0 although (>1.0) & (<1.0.post0.dev0) is a non-empty range - the recorded finding adjacent-gap, which the oracle exhibits on the code (is_empty / == / is_any on 8 adjacent pairs). "
+         "Same tie and oracle as C01 plus canonical-shape checks.", TB_PROOF,
          "machine-checked proof in Coq over a model regenerated from source + correspondence", "5"),
  "C14": ("proof", "13 laws + complement as `==` of the returned objects, each an instance of the closure/uniqueness theorems over the regenerated model "
          "(specifier part: proof). Marker part: equivalence of both sides on environment grids by the direct oracle only (marker normaliser model pending).",
@@ -25,7 +28,7 @@ P = {
          "the two spellings of the universal set): == is an equivalence on canonical values, equal objects have equal hash keys, and equal operands give equal results for every operator and side. "
          "Marker part: C13m_refl/sym/trans (marker == is an equivalence; grouped ==/!= atoms compare their values as sets), C13m_same_meaning, C13m_interchangeable (==-equal operands give & / | results with the same meaning, either side) over Model/Marker.v; "
          "hash agreement of markers and objects differing only in attached caches: direct oracle only.",
-         TB_PROOF + "; hash() is modelled as a function of the generated hash key (S-gen compares key equality with observed hash equality); marker part: " + TB_ORACLE,
+         TB_PROOF + "; hash() is modelled as a function of the generated hash key (S-gen compares key equality with observed hash equality); marker part: Props/C13m.v over the hand model Model/Marker.v (tied by S-mark), marker hashes by the direct oracle",
          "machine-checked proof in Coq (specifiers over the regenerated model; marker == over a hand model) + differential oracle (marker hashes)", "5"),
  "C09": ("proof", "C09_manylinux/musl/mac_x86/mac_arm64/win/score for ALL target versions by induction over the descending ranges (not only the grid), C09_order_grid as a computed sweep over the "
          "property's whole grid, C09_mac_arm64_10_refuted as the machine-checked witness of the recorded finding; Model/Platform.v is tied to platform.py by the S-plat stream, which is EXHAUSTIVE over the "
@@ -33,12 +36,13 @@ P = {
          "trusted: Coq kernel (closed under the global context; vm_compute for the finite sweep); the hand model is tied to the code by the exhaustive correspondence; packaging.tags as the order reference",
          "machine-checked proof in Coq over a hand model + correspondence exhaustive on the property's domain", "5"),
  "C08": ("proof", "Theorem C08 over Model/Tags.v: _evaluate_python returns Some (X, Y|0, rank) exactly when the implementation/ABI side conditions hold AND some position admitted by requires_python "
-         "lies in the wheel's loadable interval (cpXY: the X.Y series, abi3: >= X.Y, pyXY: >= X.Y within major X, pyX: the X series), None otherwise; for every canonical requires_python and ALL minors. "
+         "lies in the wheel's loadable interval (cpXY: the X.Y series, abi3: >= X.Y, pyXY: >= X.Y within major X, pyX: the X series), None otherwise; for every canonical requires_python and ALL minors. Positions, not versions: a requires_python whose bounds are adjacent "
+         "versions (>3.9,<3.9.post0.dev0) is a non-empty range without a member and accepts cp39 wheels - recorded finding adjacent-gap (cf. C05_gap_refuted), exhibited by the oracle. "
          "The emptiness test is the GENERATED `&`/is_empty, and the proof uses C01/C05 exactness. Tie: S-tags stream (model vs _evaluate_python over the tag universe x requires_python x implementation grid).",
          TB_PROOF + "; Model/Tags.v is hand-written (string slicing / replace / lower / startswith) and tied by the S-tags stream",
          "machine-checked proof in Coq over a hand model on top of the regenerated algebra + correspondence", "5"),
- "C16": ("proof", "C16_python (widening requires_python keeps every accepted python/ABI pair, from C08), C16_plat (a newer release of the same OS family and architecture accepts every tag, from the C09 "
-         "membership characterisations, for all versions), and for the model of EnvSpec.compare: reflexive, INCOMPATIBLE symmetric, never HIGHER both ways, HIGHER/LOWER_OR_EQUAL imply nested platform tag sets, total. "
+ "C16": ("proof", "C16_python (widening requires_python - inclusion of POSITIONS, which implies inclusion of versions but is not implied by it on adjacent-version gaps: recorded finding adjacent-gap - keeps every accepted python/ABI pair, from C08), C16_plat (a newer release of the same OS family and architecture accepts every tag, from the C09 "
+         "membership characterisations, for all versions), and for the model of EnvSpec.compare: reflexive, INCOMPATIBLE symmetric, never HIGHER both ways, total, and whenever compare answers HIGHER (C16_cmp_higher_nested) or LOWER_OR_EQUAL (C16_cmp_loe: through the same-spec test, the version test or the version-less OS class) for two specs with supported platforms the platform tag sets are nested accordingly. "
          "Ties: S-cmp (compare model vs EnvSpec.compare on 1500/20000 spec pairs), S-tags, S-plat (exhaustive grid).",
          TB_PROOF + "; Model/Tags.v and Model/Platform.v are hand-written and tied by the S-cmp / S-tags / S-plat streams; nesting is stated for manylinux major 2, musllinux major 1, macOS (x86_64: 10.x with minor<=16 or >=11; arm64), Windows",
          "machine-checked proof in Coq over hand models on top of the regenerated algebra + correspondence", "5"),
@@ -66,13 +70,17 @@ ORACLE_ONLY = {
  "C17": "parser acceptance vs packaging's SpecifierSet per ||-alternative; only InvalidSpecifier may be raised; from_specifierset never raises",
 }
 
-TB_MARKER = ("trusted: Coq kernel (Props/C02.v closed under the global context); Model/Marker.v is hand-written and tied to dep_logic.markers by the S-mark stream (structural comparison of parse/&/|/only/exclude results, "
-             "evaluate on environments); the merge of two version-like atoms is a parameter of the model whose soundness hypothesis (vmerge_sound) is checked on every row the implementation produced (S-vmerge-rows) and rests on C11/C04; "
-             "set iteration order and fuel are universally quantified")
+TB_MARKER = ("trusted: Coq kernel (the property file is closed under the global context); Model/Marker.v is hand-written and tied to dep_logic.markers by the S-mark stream (structural comparison of parse/&/|/only/exclude results, "
+             "evaluate on environments; the iteration order of every Python set involved is recorded on the code and given to the model). Shape of the theorems: partial correctness (`f ... = Ret r -> ...`: fuel exhaustion and the "
+             "exceptions of the code are outside), for well-defined operands (wf: `extra` atoms use == / != only, grouped ==/!= atoms sit on string variables - preserved by every operation, it is part of each conclusion), in every environment of a "
+             "class `good` that is a PARAMETER: the merge of two version-like atoms is a parameter too, assumed sound on `good` (vmerge_sound). That hypothesis is (a) discharged inside Coq for the oracle built from the bridge model "
+             "(C11_link / C11_linked_ops in Props/C11.v: good = environments that decide version atoms as packaging's Specifier.contains does on a final interpreter; the oracle declines on the recorded finding tilde-max-post), and (b) checked on every row "
+             "the implementation produced (S-vmerge-rows, final-version environments; pre-release interpreters, in-lists and long python_version operands are the recorded findings nonfinal-env / pv-in-substring / pv-long-operand). "
+             "Set iteration order and fuel are universally quantified")
 TB_PARSE = ("trusted: Coq kernel (closed under the global context); Model/SpecParse.v is hand-written over tokenised clauses and tied to the code by the S-parse stream; the GENERATED algebra is tied by S-gen; the text layer "
             "(packaging's tokeniser, str(Version)) and packaging's Specifier.contains on final releases (clause_sem) are modelled/observed, not verified; === is outside the model")
 P.update({
- "C02": ("proof", "Theorems C02_and / C02_or (the result of & / | evaluates as the conjunction / disjunction of the operands in EVERY environment), C02_empty_any, C02_parse (_build_markers preserves the Boolean structure of the parsed text) and "
+ "C02": ("proof", "Theorems C02_and / C02_or (the result of & / | evaluates as the conjunction / disjunction of the operands in every environment of the class `good`, see trusted base), C02_empty_any, C02_parse (_build_markers preserves the Boolean structure of the parsed text) and "
          "C02_normaliser (MultiMarker.of, MarkerUnion.of, union_simplify, intersect_simplify, cnf, dnf, union are all meaning preserving) over Model/Marker.v, for every fuel, every set iteration order and every sound merge of version-like atoms. "
          "Quick: rebuild the cone, S-mark correspondence (~700 cases evaluated inside Coq), S-vmerge-rows (the merge hypothesis on the rows the code produced), direct truth-table oracle on ~1000 operand pairs.",
          TB_MARKER, "machine-checked proof in Coq over a hand model + correspondence + hypothesis check on the implementation", "5"),
@@ -106,11 +114,12 @@ P["C14"] = ("proof", "Specifier part: 13 laws + complement as `==` of the return
 P["C11"] = ("proof", "C11_view: for EVERY comparison / ~= / wildcard atom on a version variable (any operand shape: release length, epoch, pre/post/dev suffix) `value in marker.specifier` equals the atom's evaluation on every final interpreter version; "
             "C11_back: from_specifier(name, s) returns AnyMarker / EmptyMarker only for the universal / empty set and otherwise None or an atom that evaluates true exactly on the final versions s admits, for every canonical s with genuine remembered clauses; "
             "C11_padding: zero padding the release segment (python_full_version) changes no comparison; C11_reversed: literal-on-the-left atoms with a final literal evaluate like the mirrored atom; C11_merge: _merge_single_markers on two atoms of one version-like variable returns something that evaluates as their conjunction / disjunction "
-            "(discharging the marker theorems' merge hypothesis for same-variable merges); C11_normalize / C11_merge_pv: the same for the python_version / python_full_version pair on every consistent interpreter (python_version = X.Y, "
+            "(side condition: the merged specifier is tilde_safe, i.e. outside the recorded finding tilde-max-post; the same side condition is on C11_back); C11_link / C11_linked_ops: for ANY tokeniser/printer pair that round-trips, the merging oracle built from this model satisfies the hypothesis vmerge_sound of the marker theorems (C02 ...), "
+            "so & and | computed with it mean the conjunction / disjunction of their operands on every environment that decides version atoms as packaging does on a final interpreter (link_runs / env0_good: the oracle merges, the class is inhabited); C11_normalize / C11_merge_pv: the same for the python_version / python_full_version pair on every consistent interpreter (python_version = X.Y, "
             "python_full_version = X.Y.Z), for python_version operands with at most two meaningful segments (the rest is the recorded finding pv-long-operand). Atom evaluation = packaging's Specifier.contains = clause_sem (model; compared with evaluate() and packaging by S-bridge / S-parse). "
             "Outside the theorems: `in`/`not in` lists (string containment: known finding pv-in-substring) - direct oracle only.",
             TB_PARSE + "; Model/Bridge.v hand-written over tokenised atoms, tied by the S-bridge stream", "machine-checked proof in Coq over hand models + correspondence; in/not-in lists by differential oracle", "5")
-P["C07"] = ("proof", "C07_parses: for every renderable marker (non-empty compounds and ==/!= groups, no <empty>/universal child: what C15 claims of results) the rendering - every class's __str__, MultiMarker's parenthesisation rule, the "
+P["C07"] = ("proof", "C07_parses: for every renderable marker (rnd: non-empty compounds and ==/!= groups, no <empty>/universal child - what C15 claims of results; that every result IS renderable is the part of C15 that is not proved: it is checked on every result by the normal-form oracle of C15 and by this property's own oracle) the rendering - every class's __str__, MultiMarker's parenthesisation rule, the "
             "literal-on-the-left spelling - is accepted by the PEP 508 grammar and parses to the expected item tree; C07_meaning: that tree, evaluated as packaging evaluates it, means exactly m; C07_reparse: so the marker rebuilt from str(m) evaluates "
             "identically in every environment; C07_specials: <empty> / '' are the renderings of the empty / universal marker, are special-cased by the parser, and <empty> never occurs inside a larger rendering. Lexeme level: lexing itself is packaging's. "
             "Ties: S-mstr (lexed str(m) vs model; model's parser vs packaging's tree), S-mark; direct oracle re-parses with parse_marker and packaging's Marker and compares truth tables.",
